@@ -4,4 +4,9 @@ go 1.25.0
 
 require github.com/gopacket/gopacket v0.0.0
 
+require (
+	golang.org/x/net v0.55.0 // indirect
+	golang.org/x/sys v0.45.0 // indirect
+)
+
 replace github.com/gopacket/gopacket => /repo
